@@ -110,6 +110,7 @@ def handleRegion (circular : Bool) (L : Int) (rec : BioRecord) (j : Json) : R Js
                ("expected_seq", Json.str (String.ofList (expectedSeq L rd rec.seq))),
                ("region_len", toJson (regionLen L rd)),
                ("images", jArr images),
+               ("scope", toJson (wfInput rd rec)),
                ("kf_prepeptide_cut", toJson (prepeptideCut L rd rec.features)),
                ("kf_equal_areas", toJson (equalAreas rd)),
                ("kf_exons_span_file", toJson (exonsSpanFile circular L rd rec.features))]
@@ -120,7 +121,6 @@ def handle (j : Json) : R Json := do
   let record : BioRecord := { seq := seq.toList, features := parent }
   let L := record.length
   let regions ← (← arrF j "regions").mapM (handleRegion (boolFD j "circular" true) L record)
-  return jObj [("regions", jArr regions),
-               ("scope", toJson (parent.all fun f => locOK L f.loc))]
+  return jObj [("regions", jArr regions)]
 
 end ASV.Drv.C12
